@@ -357,7 +357,11 @@ func main() {
 						ev["mut"] = 0
 					}
 				}
-				ev["k"], ev["ci"], ev["want"], ev["r"] = "mutant", i, "not5xx", r
+				want := "not5xx"
+				if m.M == "PROPPATCH" && m.Srv == "cal" {
+					want = "any"
+				}
+				ev["k"], ev["ci"], ev["want"], ev["r"] = "mutant", i, want, r
 				enc.Encode(ev)
 				n++
 			}
